@@ -47,18 +47,41 @@ def wl_bloom(ctx, rng, case):
     sc = bl.Scratch(ctx, case)
     objs = []
     try:
+        paths = {}
+
         def mk(on_disk):
             if on_disk:
-                o = P.BloomFilterOnDisk(sc.path("op"), est, rate, **bl.kw_hash(hf))
+                p = sc.path("op")
+                o = P.BloomFilterOnDisk(p, est, rate, **bl.kw_hash(hf))
+                paths[id(o)] = p
             else:
                 o = P.BloomFilter(est, rate, **bl.kw_hash(hf))
             objs.append(o)
             return o
 
+        def reloaded(o):
+            """the same contents in another reachable state: loaded from its own export / closed and reopened"""
+            if id(o) in paths:
+                p = paths[id(o)]
+                o.close()
+                n = P.BloomFilterOnDisk(p, **bl.kw_hash(hf))
+                paths[id(n)] = p
+            elif isinstance(est, int):
+                n = P.BloomFilter.frombytes(bytes(o), **bl.kw_hash(hf)) if rng.random() < 0.5 else P.BloomFilter(hex_string=o.export_hex(), **bl.kw_hash(hf))
+            else:
+                return o
+            objs.append(n)
+            ctx.count("operands_reloaded_before_the_union")
+            return n
+
         sA, sB, sAB = mk(disk[0]), mk(disk[1]), mk(False)
         feed_bloom(sA, A)
         feed_bloom(sB, B)
         feed_bloom(sAB, A + B)
+        if rng.random() < 0.2:
+            sA = reloaded(sA)
+        if rng.random() < 0.2:
+            sB = reloaded(sB)
         # unsaturated states only (a completely set array has no defined element estimate)
         if bl.bits_of(sAB).count(b"\xff"[0]) == len(bl.bits_of(sAB)) and m % 8 == 0:
             ctx.count("skipped_saturated")
@@ -141,6 +164,12 @@ def wl_counting(ctx, rng, case):
     apply_stream(sA, A)
     apply_stream(sB, B)
     apply_stream(sAB, A + B)
+    if rng.random() < 0.2:
+        sA = P.CountingBloomFilter.frombytes(bytes(sA), **bl.kw_hash(hf))  # an operand loaded from its own export
+        ctx.count("operands_reloaded_before_the_union")
+    if rng.random() < 0.2:
+        sB = P.CountingBloomFilter(hex_string=sB.export_hex(), **bl.kw_hash(hf))
+        ctx.count("operands_reloaded_before_the_union")
     if all(c > 0 for c in bl.cells_of(sAB)) or max(bl.cells_of(sAB)) >= 2**32 - 1:
         ctx.count("skipped_saturated")  # every counter in use, or a counter at its limit: outside the statement
         return
@@ -201,6 +230,12 @@ def wl_join(ctx, rng, case):
     apply_stream(sA, A)
     apply_stream(sB, B)
     apply_stream(sAB, A + B)
+    if rng.random() < 0.2:
+        sA = cls.frombytes(bytes(sA), **bl.kw_hash(hf))  # receiver / argument loaded from their own exports
+        ctx.count("operands_reloaded_before_the_join")
+    if rng.random() < 0.2:
+        sB = other_cls.frombytes(bytes(sB), **bl.kw_hash(hf))
+        ctx.count("operands_reloaded_before_the_join")
     b_before = bytes(sB)
     if rng.random() < 0.3:
         # a join that is REFUSED (mismatched, non-empty argument) must leave the receiver as it was: the join proper follows
